@@ -36,7 +36,11 @@ from ahbicht.models.mapping_results import PackageKeyConditionExpressionMapping 
 FMT = EdifactFormat.UTILMD
 VER = EdifactFormatVersion.FV2210
 
-FORMATS = [(EdifactFormat.UTILMD, EdifactFormatVersion.FV2210), (EdifactFormat.MSCONS, EdifactFormatVersion.FV2210)]
+FORMATS = [
+    (EdifactFormat.UTILMD, EdifactFormatVersion.FV2210),
+    (EdifactFormat.MSCONS, EdifactFormatVersion.FV2210),
+    (EdifactFormat.UTILMD, EdifactFormatVersion.FV2304),  # same format, other version (a changeover period)
+]
 
 REQ: ContextVar[Optional[str]] = ContextVar("sim_request_id", default=None)
 CER: ContextVar[Optional[dict]] = ContextVar("sim_content_evaluation_result", default=None)
@@ -234,7 +238,11 @@ class Sim:
 def evaluatable_data_provider():
     """what `inject.params(evaluatable_data=EvaluatableDataProvider)` calls - in the context of the calling task"""
     edifact_format, version = FORMATS[PEER_SET.get()]
-    return EvaluatableData(body=CER.get(), edifact_format=edifact_format, edifact_format_version=version)
+    # evaluatable data is a value: every call of the provider hands out a fresh copy (which is freed after use - a
+    # library that remembers things by id() of the body, or by the object itself, meets reused addresses here)
+    import copy
+
+    return EvaluatableData(body=copy.deepcopy(CER.get()), edifact_format=edifact_format, edifact_format_version=version)
 
 
 def _flip(value):
@@ -334,7 +342,8 @@ def _make_package_resolver(sim, index=0):
             sim.check_peer_set(index, "pkg", package_key)
             await sim.pause("pkg", package_key)
             return PackageKeyConditionExpressionMapping(
-                package_key=package_key, package_expression=sim.package_value(package_key), edifact_format=FMT
+                package_key=package_key, package_expression=sim.package_value(package_key),
+                edifact_format=FORMATS[index][0],
             )
 
     return SimPackageResolver()
@@ -420,7 +429,7 @@ def install_world(sim):
         peer_sets.append(_make_dict_peers(sim, world["dict_cer"]))
     else:
         # one set of peers per (format, format version) the process serves; a request belongs to exactly one of them
-        for index in range(2 if world.get("two_formats") else 1):
+        for index in range(int(world.get("n_formats") or (2 if world.get("two_formats") else 1))):
             peer_sets.append(
                 [
                     _make_rc_evaluator(sim, world.get("rc_keys", []), set(world.get("sync_rc", [])), index),
